@@ -157,6 +157,7 @@ fn build_compare_op(
                     trait __DeriveExEqCheck {
                         fn __derive_ex_eq_check(&self);
                     }
+                    #[automatically_derived]
                     #[allow(clippy::double_parens)]
                     #[allow(unused_parens)]
                     impl #impl_g __DeriveExEqCheck for #this_ty #wheres {
